@@ -4,6 +4,7 @@
 #include <stdint.h>
 #include <stdio.h>
 #include <string.h>
+#include <sys/resource.h>
 #include <unistd.h>
 
 #include "fiber_manager.h"
@@ -29,7 +30,11 @@ static void* fiber_body(void* p) {
     op_t* op = &g_case.ops[idx][k];
     g_set_op(idx, k);
     if (!strcmp(op->name, "yield")) {
-      for (int i = 0; i < (op->a > 0 ? op->a : 1); i++) fiber_yield();
+      for (int i = 0; i < (op->a > 0 ? op->a : 1); i++) {
+        int before = g_fiber_switches(idx);
+        fiber_yield();
+        if (g_fiber_switches(idx) == before) g_yield_noswitch(idx);
+      }
     } else if (!strcmp(op->name, "work")) {
       rt_work(idx, op->a);
     } else if (!strcmp(op->name, "nop") || (!strcmp(op->name, "target") && op->a < 0)) {
@@ -55,6 +60,7 @@ static fiber_t* rt_create(int idx) {
   return f;
 }
 
+int rt_join(int idx, void** result) { return fiber_join(rt_fibers[idx], result); }
 void rt_spawn(int idx) {
   fiber_t* f = rt_create(idx);
   fiber_manager_schedule(fiber_manager_get(), f);
@@ -64,7 +70,17 @@ void rt_main(void* arg) {
   (void)arg;
   const harness_t* H = rt_harness();
   rt_install_quiescence();
+  // cfg rlimit_soft: the process starts with a soft descriptor limit below the hard one and raises it after the runtime is up
+  // (descriptors numbered above the initial soft limit are then perfectly valid)
+  struct rlimit rl_saved, rl_low;
+  const long soft = cfg_get("rlimit_soft", 0);
+  if (soft > 0 && !getrlimit(RLIMIT_NOFILE, &rl_saved) && (rlim_t)soft < rl_saved.rlim_cur) {
+    rl_low = rl_saved;
+    rl_low.rlim_cur = (rlim_t)soft;
+    setrlimit(RLIMIT_NOFILE, &rl_low);
+  }
   if (fiber_manager_init((size_t)g_case.threads) != FIBER_SUCCESS) vs_violation("engine_limit", "fiber_manager_init failed");
+  if (soft > 0) setrlimit(RLIMIT_NOFILE, &rl_saved);
   const long defer_from = cfg_get("defer_from", MAX_FIBERS);
   // create every fiber before any of them can run (handles must exist when actors start)
   for (int i = 0; i < g_case.n_fibers && i < defer_from; i++) rt_create(i);
